@@ -23,6 +23,10 @@ CHECKS = {
             "Every mathvariant value x every key of the mapping x mi/mn/mo/mtext is enumerated (exhaustive) and compared with the character Unicode names MATHEMATICAL <STYLE> <LETTER> (incl. the Letterlike-Symbols holes) or the documented fall-back; generated multi-character tokens extend this; unassigned code points and per-style injectivity are checked.",
             "Trusts Python's unicodedata (UCD 14) from which harness/data/mathvariant_expected.json was generated, and the encoding of the documented fall-backs in c18.rs::allowed.",
             "DESIGN.md 3/C18"),
+    "C17": ("metamorphic property-based testing (surface re-spellings of one expression must give identical outputs) plus an exhaustive differential sweep of the entity table against Python's html.entities.html5",
+            "Generated: a base expression is re-spelled by 1-5 surface operators (character references, namespace prefix/default xmlns, white space, comments, PIs, MathJax class attributes, attribute quoting, token-edge space) and canonical MathML, speech and braille must be identical; exhaustive: each of the 2125 names of src/entities.in must expand like the numeric references of the HTML5 expansion; names in neither table must be rejected by name.",
+            "Trusts Python's html.entities.html5 as the entity reference; HTML5 names MathCAT does not know may be rejected (allowed by the statement).",
+            "DESIGN.md 3/C17"),
 }
 
 NOT_YET = "check not built yet in this round (machinery in progress; see DESIGN.md section 7 build order)"
